@@ -192,6 +192,11 @@ def run(ctx) -> None:
     from .common import include_rules
 
     include_rules(ctx, "c03", "C18.R2", only=("C03.R1",))
+    # "a lookup that merely returns an existing resource dispatches nothing" needs the child to
+    # inherit every non-generated resource of the parent (else the lookup regenerates + announces)
+    from . import c04 as _c04
+
+    _c04.rule_r2(ctx, an, rule="C18.R2")
 
     # R5 wrappers add none
     for nm, w in an.ComponentContext.methods.items():
